@@ -73,14 +73,23 @@ func Parse(dump string) []G {
 }
 
 var parked = map[string]bool{
-	"select": true, "chan receive": true, "chan send": true, "semacquire": true,
+	"select": true, "chan receive": true, "chan send": true,
 	"sync.WaitGroup.Wait": true, "sync.Mutex.Lock": true, "sync.RWMutex.RLock": true, "sync.RWMutex.Lock": true,
 	"sync.Cond.Wait": true, "select (no cases)": true, "chan receive (nil chan)": true, "chan send (nil chan)": true,
 }
 
 // Parked reports whether the goroutine is blocked in a primitive that only another goroutine
 // (or a timer) can release – as opposed to running, runnable, sleeping or in a syscall.
-func (g G) Parked() bool { return parked[g.State] }
+//
+// The generic "semacquire" state is parked only under sync.WaitGroup.Wait (this Go version has
+// no dedicated wait reason for it); otherwise it is a transient runtime semaphore (a goroutine
+// that wants to start a GC cycle while the dump holds the world semaphore, say).
+func (g G) Parked() bool {
+	if g.State == "semacquire" {
+		return g.In("sync.(*WaitGroup).Wait")
+	}
+	return parked[g.State]
+}
 
 // In reports whether any frame's function name contains sub.
 func (g G) In(sub string) bool {
